@@ -39,7 +39,14 @@ ZOK(e) ==
        /\ Len(e.z0[i]) = Len(e.lanes[i]) /\ Len(e.z1[i]) = Len(e.lanes[i])
        /\ IF e.scale0[i] # 0
           THEN \A k \in 1..Len(e.lanes[i]) :                                   \* z(a x + b) = sign(a) z(x)
-                  Abs(e.z1[i][k] - (IF e.an < 0 THEN -e.z0[i][k] ELSE e.z0[i][k])) <= e.tol + Abs(e.z0[i][k]) \div e.reldiv
+                  /\ Abs(e.z1[i][k] - (IF e.an < 0 THEN -e.z0[i][k] ELSE e.z0[i][k])) <= e.tol + Abs(e.z0[i][k]) \div e.reldiv
+                  (* ... and z IS (x - location) / scale, the scale being the estimator's own value whatever location method is
+                     chosen: z * scale = x - loc  (z in 1/q, scale in 1/65536 -> 1/256; doublemad scales each side separately) *)
+                  /\ (e.method # "doublemad" =>
+                        LET sq == e.scale0[i] \div 256
+                            lhs == e.z0[i][k] * sq
+                            rhs == (e.lanes[i][k] * e.q - e.loc0[i]) * 256
+                        IN Abs(lhs - rhs) <= sq + Abs(e.z0[i][k]) + 256 * e.tol + Abs(rhs) \div e.reldiv)
           ELSE \A k \in 1..Len(e.lanes[i]) :                                   \* zero scale estimate: unit scale, z = x - loc
                   Abs(e.z0[i][k] - (e.lanes[i][k] * e.q - e.loc0[i])) <= e.tol
 
